@@ -29,14 +29,16 @@ func init() { register("conc", concEngine{}, "C03", "C06", "C14") }
 // handle slots of a client program: negative = objects made by the setup
 // phase, >= 0 = handle returned by the client's own op with that index.
 const (
-	slotRoot = -1
-	slotD1   = -2
-	slotD2   = -3
-	slotF1   = -4
-	slotF2   = -5
-	slotBig  = -6
-	slotSub  = -7 // d1/sub (a directory inside d1)
-	slotBig2 = -8 // a second large file (knob big=2)
+	slotRoot  = -1
+	slotD1    = -2
+	slotD2    = -3
+	slotF1    = -4
+	slotF2    = -5
+	slotBig   = -6
+	slotSub   = -7  // d1/sub (a directory inside d1)
+	slotBig2  = -8  // a second large file (knob big=2)
+	slotGone  = -9  // a directory removed during the set-up: its handle is stale
+	slotGoneF = -10 // a file removed during the set-up
 )
 
 var concNames = []string{"a", "b", "c"}
@@ -112,6 +114,9 @@ func (concEngine) Gen(prop string, seed uint64, tier string) *Spec {
 		n := 3 + rng.Intn(maxops-2)
 		var ops []Op
 		dirSlot := func() int {
+			if rng.Chance(0.03) {
+				return slotGone // every procedure must answer a stale handle as such, also under concurrency
+			}
 			if focus && rng.Chance(0.75) {
 				return focusDir
 			}
@@ -143,6 +148,9 @@ func (concEngine) Gen(prop string, seed uint64, tier string) *Spec {
 			}
 			if len(own) > 0 && rng.Chance(0.5) {
 				return own[rng.Intn(len(own))]
+			}
+			if rng.Chance(0.02) {
+				return slotGoneF
 			}
 			if spec.Knobs["big"] == 2 && rng.Chance(0.7) {
 				return []int{slotBig, slotBig2}[rng.Intn(2)]
@@ -361,20 +369,20 @@ func nfsPorcupineModel(init *Model) porcupine.Model {
 }
 
 type concRun struct {
-	spec  *Spec
-	res   *Result
-	d     *simdisk.Disk
-	rig   *Rig
-	m     *Model
-	recs  []*concRec
-	evseq int64
-	viol  *Violation
-	setup map[int]string
-	inv   int64 // lock-order inversions observed
+	spec        *Spec
+	res         *Result
+	d           *simdisk.Disk
+	rig         *Rig
+	m           *Model
+	recs        []*concRec
+	evseq       int64
+	viol        *Violation
+	setup       map[int]string
+	inv         int64 // lock-order inversions observed
 	blameDetail string
-	base       *simdisk.Image // disk image at the start of the concurrent phase
-	traceStart int
-	rootH      string
+	base        *simdisk.Image // disk image at the start of the concurrent phase
+	traceStart  int
+	rootH       string
 }
 
 func (x *concRun) fail(kind, sig, detail string) {
@@ -436,6 +444,10 @@ func (x *concRun) main() {
 		x.setup[slotD1] = x.setupCall(&In{K: "mkdir", Obj: rootH, Name: "d1"}).H
 		x.setup[slotD2] = x.setupCall(&In{K: "mkdir", Obj: rootH, Name: "d2"}).H
 	}
+	x.setup[slotGone] = x.setupCall(&In{K: "mkdir", Obj: rootH, Name: "gone"}).H
+	x.setup[slotGoneF] = x.setupCall(&In{K: "create", Obj: rootH, Name: "gonef", How: 1}).H
+	x.setupCall(&In{K: "rmdir", Obj: rootH, Name: "gone"})
+	x.setupCall(&In{K: "remove", Obj: rootH, Name: "gonef"})
 	x.setup[slotF1] = x.setupCall(&In{K: "create", Obj: x.setup[slotD1], Name: "a", How: 1}).H
 	x.setup[slotF2] = x.setupCall(&In{K: "create", Obj: x.setup[slotD2], Name: "b", How: 1}).H
 	x.setup[slotSub] = x.setupCall(&In{K: "mkdir", Obj: x.setup[slotD1], Name: "sub"}).H
@@ -792,9 +804,11 @@ func readOnlyKind(k string) bool {
 // crashCheck cuts the disk off at points of the concurrent phase's write
 // stream (every prefix, sampled subsets of the un-barriered writes), restarts
 // a server on each image, reads the whole tree back and requires the history
-//   operations acknowledged before the cut (exact replies)
-//   operations in flight at the cut (took effect with their reply, or not at all)
-//   the post-crash observations
+//
+//	operations acknowledged before the cut (exact replies)
+//	operations in flight at the cut (took effect with their reply, or not at all)
+//	the post-crash observations
+//
 // to be linearizable against the reference file system; the recovered
 // structure must pass fsck and conservation.
 func (x *concRun) crashCheck() *Violation {
